@@ -28,8 +28,13 @@ from concurrent.futures import ThreadPoolExecutor
 
 ROOT = os.path.dirname(os.path.dirname(os.path.abspath(__file__)))
 LEAN = os.path.join(ROOT, "lean")
-HARNESS = os.path.join(ROOT, "harness")
+# The source tree under test.  Registered commands use /repo; SLT_REPO lets a background run (vp run
+# --with-repo) or a seed experiment point the whole machinery at another checkout without touching /repo.
+REPO = os.path.abspath(os.environ.get("SLT_REPO", "/repo"))
+HARNESS_SRC = os.path.join(ROOT, "harness")
 OUT = os.path.join(ROOT, "out")
+# with another tree the harness is built in its own directory (Cargo.toml with the other paths)
+HARNESS = HARNESS_SRC if REPO == "/repo" else os.path.join(OUT, "harness_alt")
 EVID = os.path.join(ROOT, "evidence")
 MODEL_BIN = os.path.join(LEAN, ".lake", "build", "bin", "sltmodel")
 HARNESS_BIN = os.path.join(HARNESS, "target", "release", "slt-harness")
@@ -45,6 +50,9 @@ import oracles as ORACLES  # noqa: E402
 ENV = dict(os.environ)
 ENV["CARGO_NET_OFFLINE"] = "true"
 ENV["RUST_BACKTRACE"] = "0"
+ENV["SLT_REPO"] = REPO
+ENV["SLT_HARNESS_DIR"] = HARNESS
+ENV.setdefault("SLT_SCRATCH", os.path.join(OUT, "scratch"))
 
 
 class MachineryError(Exception):
@@ -217,19 +225,36 @@ def prove(pid, thorough):
 
 # ----------------------------------------------------------------------------- (K) correspondence
 
+def prepare_alt_harness():
+    """SLT_REPO != /repo: a copy of the harness manifest with the path dependencies redirected"""
+    if HARNESS == HARNESS_SRC:
+        return
+    import shutil
+    os.makedirs(os.path.join(HARNESS, ".cargo"), exist_ok=True)
+    toml = open(os.path.join(HARNESS_SRC, "Cargo.toml")).read().replace('"/repo/', '"' + REPO + '/')
+    if not os.path.exists(os.path.join(HARNESS, "Cargo.toml")) or open(os.path.join(HARNESS, "Cargo.toml")).read() != toml:
+        open(os.path.join(HARNESS, "Cargo.toml"), "w").write(toml)
+    shutil.copy(os.path.join(HARNESS_SRC, ".cargo", "config.toml"), os.path.join(HARNESS, ".cargo", "config.toml"))
+    link = os.path.join(HARNESS, "src")
+    if not os.path.islink(link):
+        os.symlink(os.path.join(HARNESS_SRC, "src"), link)
+
+
 def build_cli():
     """the real CLI binary, rebuilt from /repo's working tree"""
+    prepare_alt_harness()
     with Lock(".cargo.lock"):
         p = sh(["cargo", "build", "--offline", "-p", "sqllogictest-bin", "--target-dir",
-                os.path.join(HARNESS, "target", "cli")], cwd="/repo", check=False, timeout=3600)
+                os.path.join(HARNESS, "target", "cli")], cwd=REPO, check=False, timeout=3600)
         if p.returncode != 0:
             return p.stdout[-4000:]
     return None
 
 
 def build_harness():
+    prepare_alt_harness()
     with Lock(".cargo.lock"):
-        lock_src = "/repo/Cargo.lock"
+        lock_src = os.path.join(REPO, "Cargo.lock")
         lock_dst = os.path.join(HARNESS, "Cargo.lock")
         if not os.path.exists(lock_dst):
             import shutil
